@@ -131,9 +131,12 @@ CHECKS = {
         "with NUL / controls / quote / backslash / slash / DEL / non-ASCII, 64-bit extremes, reals k/2) are stringified with precision 17 "
         "into a non-empty stream, parsed back and stringified again in three character widths. TLC, with the independent TLA+ grammar as "
         "the reader of the text, judges every event: the text is a document, denotes Norm(tree), the library reads it back to the same "
-        "tree, the second stringification is identical, and only the tail of the caller's stream changed.",
+        "tree, the second stringification is identical, and only the tail of the caller's stream changed. The writers are transcribed "
+        "on the representation (QStringifyImpl: dead slots, Undefined elements, pointers also to Undefined, the last-comma patch): TLC checks "
+        "every container of <= 3 (thorough 4) entries against the canonical text, rejects three variants, and every exported state is "
+        "rebuilt through the public API and must stringify to the model's tokens.",
    note="sampled trees (depth <= 3); number formatting itself belongs to C10/C11; values are compared as JSON numbers (3.0 may come back as 3).",
-   technique="TLA+ JSON grammar as independent reader; TLC batch oracle over recorded stringify/parse/stringify events",
+   technique="TLA+ JSON grammar as independent reader; TLC batch oracle over recorded stringify/parse/stringify events; TLC-checked writer transcription replayed state by state",
    design="6 (C08)"),
  "C09": dict(
    text="The numeral grammar, the exact value D*10^k and the admissible results are an explicit TLA+ specification (QDigitParse on "
